@@ -144,9 +144,15 @@ HAND = [
     ("dimerisation", "[CH3:1][SH:2].[CH3:3][SH:4]>>[CH3:1][S:2][S:4][CH3:3]", ["CS.CS", "CCS.CS", "SCCS.CS"], [False], ["I"]),
     ("disulfide-split", "[CH3:1][SH:2].[CH3:3][SH:4]>>[CH3:1][S:2][S:4][CH3:3]", ["CSSC", "CCSSC"], [True], ["I"]),
     ("halogen-exchange", "[CH3:1][Cl:2].[CH3:3][Br:4]>>[CH3:1][Br:4].[CH3:3][Cl:2]", ["CCl.CBr", "ClCCl.BrCBr", "ClCCBr", "ClCCBr.ClCCBr"], [False, True], ["I"]),
-    ("sn2-explicit", "[CH3:1][C:2]([H:5])([H:6])[Br:3].[O:4]([H:7])[H:8]>>[CH3:1][C:2]([H:5])([H:6])[O:4][H:8].[Br:3][H:7]", ["CCBr.O", "BrCCCBr.O"], [False], ["E"]),
-    ("hydrogenation", "[CH2:1]=[CH2:2].[H:3][H:4]>>[CH2:1]([H:3])[CH2:2][H:4]", ["C=C.[H][H]", "C=CC=C.[H][H]"], [False], ["E"]),
-    ("amide-explicit", "[CH3:1][C:2](=[O:3])[Cl:4].[N:5]([H:6])([H:7])[CH3:8]>>[CH3:1][C:2](=[O:3])[N:5]([H:7])[CH3:8].[Cl:4][H:6]", ["CC(=O)Cl.NC", "ClC(=O)CC(=O)Cl.NCCN"], [False], ["E"]),
+    ("sn2-explicit", "[CH3:1][C:2]([H:5])([H:6])[Br:3].[O:4]([H:7])[H:8]>>[CH3:1][C:2]([H:5])([H:6])[O:4][H:8].[Br:3][H:7]", ["CCBr.O", "BrCCCBr.O"], [False], ["E", "I"]),
+    ("hydrogenation", "[CH2:1]=[CH2:2].[H:3][H:4]>>[CH2:1]([H:3])[CH2:2][H:4]", ["C=C.[H][H]", "C=CC=C.[H][H]"], [False], ["E", "I"]),
+    ("amide-explicit", "[CH3:1][C:2](=[O:3])[Cl:4].[N:5]([H:6])([H:7])[CH3:8]>>[CH3:1][C:2](=[O:3])[N:5]([H:7])[CH3:8].[Cl:4][H:6]", ["CC(=O)Cl.NC", "ClC(=O)CC(=O)Cl.NCCN"], [False], ["E", "I"]),
+    ("suzuki-bare", "[C:1][Br:2].[B:3][C:4]>>[C:1][C:4].[B:3][Br:2]", ["CCC(C)C.OB(O)Br", "CCCC.BBr", "CC1CC1.BrB(O)O"], [True], ["I"]),
+    ("suzuki-bare-small-BBr", "[C:3][Br:1].[B:2][C:4]>>[C:3][C:4].[B:2][Br:1]", ["CCC(C)C.OB(O)Br"], [True], ["I"]),
+    ("metathesis-bare", "[C:1]=[C:2].[C:3]=[C:4]>>[C:1]=[C:3].[C:2]=[C:4]", ["CC=C.C=CC", "CC=CC.C=C", "C=CC=C", "C1=CCC=CC1"], [False], ["I"]),
+    ("halogen-exchange-bare", "[C:1][Cl:2].[C:3][Br:4]>>[C:1][Br:4].[C:3][Cl:2]", ["ClCCl.BrCBr", "ClCCBr", "ClCCBr.ClCCBr", "ClC(Cl)Br.BrCC"], [False, True], ["I"]),
+    ("dimerisation-bare", "[C:1][SH:2].[C:3][SH:4]>>[C:1][S:2][S:4][C:3]", ["CCS.CS", "SCCS.CS", "SCC(S)CS"], [False], ["I"]),
+    ("aldol-bare", "[C:1](=[O:2])[CH:3].[C:4]=[O:5]>>[C:1](=[O:2])[C:3][C:4][OH:5]", ["CC(=O)C.CC=O", "CC=O.CC=O", "O=CCC=O"], [False], ["I"]),
     ("three-component", "[CH3:1][Br:2].[CH3:3][I:4].[CH3:5][Cl:6]>>[CH3:1][I:4].[CH3:3][Cl:6].[CH3:5][Br:2]", ["CBr.CI.CCl", "CCBr.CCI.CCCl"], [False], ["I"]),
     ("single-symmetric", "[CH3:1][CH2:2][CH3:3]>>[CH3:1][CH:2]=[CH2:3]", ["CCC", "CC(C)C", "CCCC"], [False], ["I"]),
     ("ring-symmetric", "[cH:1]1[cH:2][cH:3][cH:4][cH:5][cH:6]1.[Br:7][Br:8]>>[cH:1]1[cH:2][cH:3][cH:4][cH:5][c:6]1[Br:7].[BrH:8]", ["c1ccccc1.BrBr", "Cc1ccccc1.BrBr"], [False], ["I"]),
